@@ -468,7 +468,7 @@ func genC09(d *Draw) Case {
 	if d.N(2) == 0 {
 		return genC09Tracer(d)
 	}
-	opts := ProgOpts{Kinds: []string{"seq", "xor", "and", "or", "loop", "sub"}, MaxDepth: 1 + d.N(2), MaxTasks: 3 + d.N(5), OrEarlyEnd: true, StartFork: true, EmptyBranches: true, Fuse: true}
+	opts := ProgOpts{Kinds: []string{"seq", "xor", "and", "or", "loop", "sub"}, MaxDepth: 1 + d.N(2), MaxTasks: 3 + d.N(5), OrEarlyEnd: true, StartFork: true, EmptyBranches: true, Fuse: true, Throws: true}
 	var kinds []string
 	for _, k := range opts.Kinds {
 		if d.N(3) != 0 {
